@@ -75,7 +75,10 @@ let open_decode (b : n list) : open_info option =
   | Some r -> r
   | None -> missing := ("O:" ^ k) :: !missing; None
 
-let upd_apply (ap4 : bool) (ap6 : bool) (a32 : bool) (b : n list) : uevent list =
+let applied_hook : (uevent list -> unit) ref = ref (fun _ -> ())
+let rec upd_apply (ap4 : bool) (ap6 : bool) (a32 : bool) (b : n list) : uevent list =
+  let r = upd_apply0 ap4 ap6 a32 b in !applied_hook r; r
+and upd_apply0 (ap4 : bool) (ap6 : bool) (a32 : bool) (b : n list) : uevent list =
   if !use_stack then stack_upd_apply ap4 ap6 a32 b else
   let k = b2s ap4 ^ b2s ap6 ^ b2s a32 ^ ":" ^ hex_of_bytes b in
   match Hashtbl.find_opt upd_tbl k with
@@ -139,6 +142,10 @@ let strip_tables (d : string) : string =
        | [_; b] -> a ^ "|v=*|x=" ^ b
        | _ -> d)
     | _ -> d
+
+let () = applied_hook := (fun evs ->
+    if (not !noncanonical) && List.exists event_noncanonical evs then begin
+      noncanonical := true; if not !use_stack then incr noncanonical_cases end)
 
 let starts (p : string) (s : string) : bool =
   String.length s >= String.length p && String.sub s 0 (String.length p) = p
@@ -275,8 +282,7 @@ let () =
         mismatch id "implementation %s, the model serves every stream" (List.hd obs)
       else begin
         List.iter (fun t -> if starts "O:" t || starts "U:" t then add_annotation t) obs;
-        noncanonical := Hashtbl.fold (fun _ evs acc -> acc || List.exists event_noncanonical evs) upd_tbl false;
-        if !noncanonical then incr noncanonical_cases;
+        noncanonical := false;
         incr compared;
         match inp with
         | c :: rest ->
@@ -290,7 +296,7 @@ let () =
           let before = !mism in
           use_stack := true;
           compare_layers id;
-          if !mism = before then (missing := []; go ());
+          if !mism = before then (missing := []; noncanonical := false; go ());
           incr stack_compared;
           use_stack := false
         | [] -> mismatch id "empty input"
